@@ -76,7 +76,7 @@ var ghostVars = []GhostVar{
 	// event sent. Global invariant evLastTime <= evClock: assumed at entry and after calls, re-established at every send, which
 	// must carry a reading taken by time.Now (below evClock) and not older than the previous event's
 	{"evClock", SInt, "clock"}, {"evLastTime", SInt, "chan"},
-	{"opaRejected", SBool, "opa"}, {"opaEvaluated", SBool, "opa"}, {"ldRejected", SBool, "ld"},
+	{"opaRejected", SBool, "opa"}, {"opaEvaluated", SBool, "opaeval"}, {"ldRejected", SBool, "ld"},
 	{"exitCode", SInt, "exit"}, {"panicking", SBool, "exit"}, {"stdout", SString, "stdout"}, {"fsContent", SString, "fs"}, {"fsExists", SBool, "fs"}, {"fsWritable", SBool, "const"}, {"fOffset", SInt, "fs"}, {"fAppend", SBool, "fs"}, {"fWr", SBool, "fs"},
 }
 
